@@ -1,8 +1,10 @@
 /-
 C17 — the frame MECHANISM refines model A, part 5: corollaries over histories.
 
-* `lazy_is_unobservable`: inserting READS (through any view, anywhere) into a history changes no
+* `lazy_is_unobservable`: inserting READS (through any view, anywhere) into a guarded history changes no
   result of the other commands and leads to mechanism states that refine the SAME model-A state;
+  the guard of the history with the reads follows from the guard without them (`refGuard_insert_reads`:
+  no method call touches the store `refGuard` looks at, `store_op` / `store_fstep`);
 * composition with `c17_histories_partial` / `c17_results_partial` (`Proofs.C17`): under `histGuard`
   every read through every view of the MECHANISM model equals the layered reference.
 -/
@@ -171,13 +173,290 @@ theorem run_insert_reads : ∀ (l : List (Bool × Cmd)) (a : State),
       simp only [List.map_cons, run, keepRes, hu, Bool.false_eq_true, if_false]
       exact ⟨ih.1, by rw [ih.2]⟩
 
-/-- **`lazy_is_unobservable`.**  Take any history and insert read-only method calls — through any
-    class or instance view, at any points, each possibly materialising a frame in `Properties.map`
-    (the marked commands of `l`).  Then every OTHER command returns exactly what it returns without
-    the inserted reads, and the two final mechanism states — which differ in which frames are
-    materialised — refine one and the same model-A state: no later command can tell them apart
-    either (`frames_step_refines` from that state).  Both histories are assumed guarded. -/
-theorem lazy_is_unobservable {σ : FState} {a : State} (h : Ref σ a) (l : List (Bool × Cmd))
+/-! ## what the guard looks at is out of the reach of method calls -/
+
+/-- the part of the mechanism state `refGuard` (`sharedInit`) looks at — class table, slots,
+    `Properties` objects and their `initial_set` cells: everything but `map` and the instances -/
+structure SameStore (σ σ' : FState) : Prop where
+  classes : σ.classes = σ'.classes
+  ndesc : σ.ndesc = σ'.ndesc
+  objs : σ.objs = σ'.objs
+  initial : σ.initial = σ'.initial
+
+theorem SameStore.refl (σ : FState) : SameStore σ σ := ⟨rfl, rfl, rfl, rfl⟩
+theorem SameStore.symm {σ σ' : FState} (h : SameStore σ σ') : SameStore σ' σ :=
+  ⟨h.1.symm, h.2.symm, h.3.symm, h.4.symm⟩
+theorem SameStore.trans {σ σ' σ'' : FState} (h : SameStore σ σ') (h' : SameStore σ' σ'') : SameStore σ σ'' :=
+  ⟨h.1.trans h'.1, h.2.trans h'.2, h.3.trans h'.3, h.4.trans h'.4⟩
+
+theorem mroOf_store {σ σ' : FState} (h : SameStore σ σ') : σ.mroOf = σ'.mroOf := by
+  funext c; simp only [FState.mroOf, h.classes]
+theorem ownOf_store {σ σ' : FState} (h : SameStore σ σ') : σ.ownOf = σ'.ownOf := by
+  funext c; simp only [FState.ownOf, h.classes]
+theorem objOf_store {σ σ' : FState} (h : SameStore σ σ') : σ.objOf = σ'.objOf := by
+  funext s; simp only [FState.objOf, h.objs]
+theorem initialOf_store {σ σ' : FState} (h : SameStore σ σ') : σ.initialOf = σ'.initialOf := by
+  funext P; simp only [FState.initialOf, h.initial]
+
+/-- `sharedInit` looks at the store only -/
+theorem sharedInit_store {σ σ' : FState} (h : SameStore σ σ') (c : Cmd) : sharedInit σ c = sharedInit σ' c := by
+  cases c <;> simp only [sharedInit, ownOf_store h, objOf_store h, initialOf_store h]
+
+theorem store_mapSet (σ : FState) (P : ObjId) (c : ClassId) (r : FrameRef) : SameStore (σ.mapSet P c r) σ :=
+  ⟨rfl, rfl, rfl, rfl⟩
+theorem store_setInst (σ : FState) (i : InstId) (x : Inst) : SameStore (Frames.setInst σ i x) σ :=
+  ⟨rfl, rfl, rfl, rfl⟩
+
+/-- READ path: `_frames()` pulled by any consumer leaves the store alone (no invariant needed) -/
+theorem store_pull (σ : FState) (P : ObjId) (l : List ClassId) (p : Frame → Pull) :
+    SameStore (framesPull σ P p l).1 σ := by
+  rcases pull_state σ P l p with e | ⟨o, _, _, e⟩ <;> rw [e]
+  · exact .refl σ
+  · exact store_mapSet _ _ _ _
+
+theorem store_tGetF (σ : FState) (c : ClassId) (P : ObjId) (k : Key) : SameStore (tGetF σ c P k).1 σ :=
+  store_pull _ _ _ _
+theorem store_tItemsF (σ : FState) (c : ClassId) (P : ObjId) : SameStore (tItemsF σ c P).1 σ :=
+  store_pull _ _ _ _
+theorem noAlias_tGetF {σ : FState} (h : NoAlias σ) (c : ClassId) (P : ObjId) (k : Key) :
+    NoAlias (tGetF σ c P k).1 := (pull_inv h _ _ _).1
+theorem noAlias_tItemsF {σ : FState} (h : NoAlias σ) (c : ClassId) (P : ObjId) :
+    NoAlias (tItemsF σ c P).1 := (pull_inv h _ _ _).1
+
+/-- WRITE path as written: under `NoAlias` a frame mutation never reaches an `initial_set` cell -/
+theorem store_writeRef {σ : FState} (h : NoAlias σ) (P : ObjId) (c : ClassId) (g : Frame → Frame) :
+    SameStore (σ.writeRef P c g) σ := by
+  simp only [FState.writeRef]
+  cases hm : σ.mapGet P c with
+  | none => exact .refl σ
+  | some r =>
+    cases r with
+    | obj f => exact store_mapSet _ _ _ _
+    | initCell => exact absurd hm (h P c)
+
+theorem store_baseFrame {σ : FState} (h : NoAlias σ) (c : ClassId) (P : ObjId) :
+    SameStore (baseFrame false σ c P) σ := by
+  rw [baseFrame_eq h]; exact store_mapSet _ _ _ _
+
+theorem store_writeBase {σ : FState} (h : NoAlias σ) (c : ClassId) (P : ObjId) (g : Frame → Frame) :
+    SameStore (writeBase false σ c P g) σ := by
+  rw [writeBase_eq h]; exact store_mapSet _ _ _ _
+
+theorem store_tWriteF {σ : FState} (h : NoAlias σ) (c : ClassId) (P : ObjId) (o : Op) :
+    SameStore (tWriteF false σ c P o).1 σ := by
+  cases o with
+  | setitem k v => exact store_writeBase h _ _ _
+  | update pairs => exact store_writeBase h _ _ _
+  | delitem k =>
+    simp only [tWriteF]
+    split
+    · exact store_tGetF _ _ _ _
+    · exact (store_writeBase (noAlias_tGetF h c P k) _ _ _).trans (store_tGetF _ _ _ _)
+  | pop k d =>
+    simp only [tWriteF]
+    split
+    · exact store_tGetF _ _ _ _
+    · exact (store_writeBase (noAlias_tGetF h c P k) _ _ _).trans (store_tGetF _ _ _ _)
+  | setdefault k d =>
+    simp only [tWriteF]
+    split
+    · exact store_tGetF _ _ _ _
+    · exact (store_writeBase (noAlias_tGetF h c P k) _ _ _).trans (store_tGetF _ _ _ _)
+  | clear =>
+    exact (store_writeRef (noAlias_tItemsF (baseFrame_inv h c P).1 c P) _ _ _).trans
+      ((store_tItemsF _ _ _).trans (store_baseFrame h c P))
+  | _ => exact .refl σ
+
+theorem store_classOpF {σ : FState} (h : NoAlias σ) (c : ClassId) (o : Op) :
+    SameStore (classOpF false σ c o).1 σ := by
+  unfold classOpF
+  split
+  · split
+    · exact .refl σ
+    · split
+      · exact store_pull _ _ _ _
+      · split
+        · exact .refl σ
+        · exact store_tWriteF h _ _ _
+  · exact .refl σ
+
+theorem store_iGetF (σ : FState) (f : Frame) (c : ClassId) (P : ObjId) (k : Key) :
+    SameStore (iGetF σ f c P k).1 σ := by
+  unfold iGetF
+  split
+  · exact .refl σ
+  · exact .refl σ
+  · exact store_tGetF _ _ _ _
+
+theorem store_iWriteF (σ : FState) (f : Frame) (c : ClassId) (P : ObjId) (o : Op) :
+    SameStore (iWriteF σ f c P o).1 σ := by
+  cases o with
+  | delitem k => simp only [iWriteF]; split <;> exact store_iGetF _ _ _ _ _
+  | pop k d => simp only [iWriteF]; split <;> exact store_iGetF _ _ _ _ _
+  | setdefault k d => simp only [iWriteF]; split <;> exact store_iGetF _ _ _ _ _
+  | clear => exact store_tItemsF _ _ _
+  | _ => exact .refl σ
+
+/-- a method call through an INSTANCE view never touches the store (no invariant needed) -/
+theorem store_instOpF (σ : FState) (i : InstId) (o : Op) : SameStore (instOpF σ i o).1 σ := by
+  unfold instOpF
+  split
+  · exact .refl σ
+  · split
+    · exact store_setInst _ _ _
+    · split
+      · exact .refl σ
+      · split
+        · split
+          · exact store_pull _ _ _ _
+          · exact .refl σ
+        · exact (store_setInst _ _ _).trans (store_iWriteF _ _ _ _ _)
+
+/-- any method call, read or write, through any view: the store stays as it is (`NoAlias`: a write
+    goes to a dict of its own, never to `initial_set`) -/
+theorem store_op {σ : FState} (h : NoAlias σ) (v : View) (o : Op) : SameStore (fstep false σ (.op v o)).1 σ := by
+  cases v with
+  | cls c => exact store_classOpF h c o
+  | inst i => exact store_instOpF σ i o
+
+/-- **a READ step of the mechanism model changes nothing `refGuard` looks at** — `classes`, `ndesc`,
+    `objs`, `initial` are those of the state before (only `map` may grow); no invariant needed -/
+theorem read_step_store (σ : FState) (c : Cmd) (h : isReadCmd c = true) : SameStore (fstep false σ c).1 σ := by
+  cases c with
+  | op v o =>
+    cases v with
+    | inst i => exact store_instOpF σ i o
+    | cls c =>
+      obtain ⟨p, hp⟩ := Option.isSome_iff_exists.mp h
+      simp only [fstep, classOpF, hp]
+      split
+      · split
+        · exact .refl σ
+        · exact store_pull _ _ _ _
+      · exact .refl σ
+  | _ => simp [isReadCmd] at h
+
+theorem store_addClass {σ σ' : FState} (h : SameStore σ σ') (tail : List ClassId) (own : Option DescId) :
+    SameStore (Frames.addClass σ tail own) (Frames.addClass σ' tail own) :=
+  ⟨by simp only [Frames.addClass, h.classes], h.ndesc, h.objs, h.initial⟩
+
+theorem store_usingPropsF {σ σ' : FState} (h : SameStore σ σ') (p : ClassId) (init : List (Key × Val)) :
+    SameStore (usingPropsF σ p init) (usingPropsF σ' p init) := by
+  constructor <;>
+    simp only [usingPropsF, Frames.addClass, h.classes, mroOf_store h, h.ndesc, h.objs, h.initial]
+
+theorem store_usingSharedF {σ σ' : FState} (h : SameStore σ σ') (p : ClassId) (s : DescId) :
+    SameStore (usingSharedF σ p s) (usingSharedF σ' p s) := by
+  constructor <;>
+    simp only [usingSharedF, Frames.addClass, h.classes, mroOf_store h, objOf_store h, h.ndesc, h.objs, h.initial]
+
+/-- the store after a command is a function of the store before: two mechanism states with the same
+    store (whatever is materialised in either) have the same store after the same command -/
+theorem store_fstep {σ σ' : FState} (hs : SameStore σ σ') (h : NoAlias σ) (h' : NoAlias σ') (c : Cmd) :
+    SameStore (fstep false σ c).1 (fstep false σ' c).1 := by
+  cases c with
+  | op v o => exact (store_op h v o).trans (hs.trans (store_op h' v o).symm)
+  | subclass p =>
+    by_cases hp : p < σ'.classes.length
+    · simp only [fstep, hs.classes, mroOf_store hs, hp, if_true]; exact store_addClass hs _ _
+    · simp only [fstep, hs.classes, hp, if_false]; exact hs
+  | subclassMI tail =>
+    cases hp : tail.all (· < σ'.classes.length) with
+    | true => simp only [fstep, hs.classes, hp, if_true]; exact store_addClass hs _ _
+    | false => simp only [fstep, hs.classes, hp, Bool.false_eq_true, if_false]; exact hs
+  | usingProps p init =>
+    by_cases hp : p < σ'.classes.length
+    · simp only [fstep, hs.classes, hp, if_true]; exact store_usingPropsF hs _ _
+    · simp only [fstep, hs.classes, hp, if_false]; exact hs
+  | usingShared p owner init =>
+    by_cases hp : p < σ'.classes.length
+    · simp only [fstep, hs.classes, ownOf_store hs, hp, if_true]
+      cases σ'.ownOf owner with
+      | none => exact hs
+      | some s => exact store_usingSharedF hs _ _
+    · simp only [fstep, hs.classes, hp, if_false]; exact hs
+  | withProps p pairs =>
+    by_cases hp : p < σ'.classes.length
+    · simp only [fstep, hs.classes, mroOf_store hs, hp, if_true]
+      exact (store_classOpF (σ := Frames.addClass σ (σ'.mroOf p) none) (fun P c => h P c) _ _).trans
+        ((store_addClass hs _ _).trans
+          (store_classOpF (σ := Frames.addClass σ' (σ'.mroOf p) none) (fun P c => h' P c) _ _).symm)
+    · simp only [fstep, hs.classes, hp, if_false]; exact hs
+  | newInst c =>
+    have key : ∀ τ : FState, SameStore (fstep false τ (.newInst c)).1 τ := by
+      intro τ; simp only [fstep]; split <;> exact ⟨rfl, rfl, rfl, rfl⟩
+    exact (key σ).trans (hs.trans (key σ').symm)
+  | newInstWith c m =>
+    have key : ∀ τ : FState, SameStore (fstep false τ (.newInstWith c m)).1 τ := by
+      intro τ; simp only [fstep]; split <;> exact ⟨rfl, rfl, rfl, rfl⟩
+    exact (key σ).trans (hs.trans (key σ').symm)
+  | assign i m =>
+    have key : ∀ τ : FState, SameStore (fstep false τ (.assign i m)).1 τ := by
+      intro τ; simp only [fstep]; split <;> exact ⟨rfl, rfl, rfl, rfl⟩
+    exact (key σ).trans (hs.trans (key σ').symm)
+  | newInstCompound c m =>
+    by_cases hp : c < σ'.classes.length
+    · simp only [fstep, hs.classes, hp, if_true]
+      have := store_usingPropsF hs c m
+      exact ⟨this.1, this.2, this.3, this.4⟩
+    · simp only [fstep, hs.classes, hp, if_false]; exact hs
+
+/-! ## inserted reads do not change the guard of the other commands -/
+
+/-- **guard invariance under inserted reads.**  From two mechanism states that refine the same
+    model-A state and have the same store (they may differ in what is materialised), the guard of a
+    history with inserted reads (the marked commands) is the guard of the history without them:
+    a read passes `CmdOK` / `miGuard` / `sharedInit` trivially, changes nothing in model A
+    (`step_read_state`) and nothing in the store (`store_op`); every other command is judged by
+    `CmdOK` (the command alone), `miGuard` (model A) and `sharedInit` (the store) and maps equal
+    stores to equal stores (`store_fstep`). -/
+theorem refGuard_insert_reads_from : ∀ (l : List (Bool × Cmd)) (σ σ' : FState) (a : State),
+    Ref σ a → Ref σ' a → SameStore σ σ' →
+    (∀ bc ∈ l, bc.1 = true → isReadCmd bc.2 = true) →
+    refGuard σ a (l.map (·.2)) = refGuard σ' a (unmarked l)
+  | [], _, _, _, _, _, _, _ => rfl
+  | (b, c) :: l, σ, σ', a, h, h', hs, hr => by
+    have hr' : ∀ bc ∈ l, bc.1 = true → isReadCmd bc.2 = true :=
+      fun bc hbc => hr bc (List.mem_cons_of_mem _ hbc)
+    cases b with
+    | true =>
+      have hrd := hr (true, c) List.mem_cons_self rfl
+      have hu : unmarked ((true, c) :: l) = unmarked l := by simp [unmarked]
+      cases c with
+      | op v o =>
+        obtain ⟨_, href⟩ := op_step_refines h v o
+        rw [step_read_state a _ hrd] at href
+        have hst := (store_op h.finv.noAlias v o).trans hs
+        rw [hu, ← refGuard_insert_reads_from l _ σ' a href h' hst hr']
+        have e : (decide (CmdOK (.op v o)) && miGuard a (.op v o) && sharedInit σ (.op v o)) = true := by
+          simp only [Bool.and_eq_true, decide_eq_true_eq]
+          exact ⟨⟨trivial, rfl⟩, rfl⟩
+        simp only [List.map_cons, refGuard, step_read_state a _ hrd, e, Bool.true_and]
+      | _ => simp [isReadCmd] at hrd
+    | false =>
+      have hu : unmarked ((false, c) :: l) = c :: unmarked l := by simp [unmarked]
+      rw [hu]
+      simp only [List.map_cons, refGuard, sharedInit_store hs c]
+      cases hhead : (decide (CmdOK c) && miGuard a c && sharedInit σ' c) with
+      | false => simp only [Bool.false_and]
+      | true =>
+        simp only [Bool.and_eq_true, decide_eq_true_eq] at hhead
+        obtain ⟨⟨hok, hmi⟩, hsh⟩ := hhead
+        have hsh1 : sharedInit σ c = true := by rw [sharedInit_store hs c]; exact hsh
+        obtain ⟨_, r1⟩ := frames_step_refines h c hok hmi hsh1
+        obtain ⟨_, r2⟩ := frames_step_refines h' c hok hmi hsh
+        simp only [Bool.true_and]
+        exact refGuard_insert_reads_from l _ _ _ r1 r2 (store_fstep hs h.finv.noAlias h'.finv.noAlias c) hr'
+
+/-- from ONE state: the history with the inserted reads passes the guard iff the history without
+    them does -/
+theorem refGuard_insert_reads {σ : FState} {a : State} (h : Ref σ a) (l : List (Bool × Cmd))
+    (hr : ∀ bc ∈ l, bc.1 = true → isReadCmd bc.2 = true) :
+    refGuard σ a (l.map (·.2)) = refGuard σ a (unmarked l) :=
+  refGuard_insert_reads_from l σ σ a h h (.refl σ) hr
+
+/-- the earlier form: both histories assumed guarded -/
+theorem lazy_is_unobservable_two_guards {σ : FState} {a : State} (h : Ref σ a) (l : List (Bool × Cmd))
     (hr : ∀ bc ∈ l, bc.1 = true → isReadCmd bc.2 = true)
     (hg1 : refGuard σ a (l.map (·.2)) = true) (hg2 : refGuard σ a (unmarked l) = true) :
     keepRes l (frun false σ (l.map (·.2))).2 = (frun false σ (unmarked l)).2 ∧
@@ -188,6 +467,21 @@ theorem lazy_is_unobservable {σ : FState} {a : State} (h : Ref σ a) (l : List 
   obtain ⟨hs, hres⟩ := run_insert_reads l a hr
   rw [hs] at s1
   exact ⟨by rw [r1, r2, hres], s1, s2⟩
+
+/-- **`lazy_is_unobservable`.**  Take any guarded history and insert read-only method calls — through
+    any class or instance view, at any points, each possibly materialising a frame in
+    `Properties.map` (the marked commands of `l`).  Then every OTHER command returns exactly what it
+    returns without the inserted reads, and the two final mechanism states — which differ in which
+    frames are materialised — refine one and the same model-A state: no later command can tell them
+    apart either (`frames_step_refines` from that state).  Only the history WITHOUT the inserted
+    reads is assumed guarded; the guard of the other one follows (`refGuard_insert_reads`). -/
+theorem lazy_is_unobservable {σ : FState} {a : State} (h : Ref σ a) (l : List (Bool × Cmd))
+    (hr : ∀ bc ∈ l, bc.1 = true → isReadCmd bc.2 = true)
+    (hg : refGuard σ a (unmarked l) = true) :
+    keepRes l (frun false σ (l.map (·.2))).2 = (frun false σ (unmarked l)).2 ∧
+    Ref (frun false σ (l.map (·.2))).1 (run a (unmarked l)).1 ∧
+    Ref (frun false σ (unmarked l)).1 (run a (unmarked l)).1 :=
+  lazy_is_unobservable_two_guards h l hr (by rw [refGuard_insert_reads h l hr]; exact hg) hg
 
 /-! ## non-vacuity -/
 
@@ -266,7 +560,30 @@ example :
     materialised (frun false (finit [(kS, .int 1)]) (unmarked markedHist)).1 = [0, 1, 2] ∧
     materialised (frun false (finit [(kS, .int 1)]) ((markedHist.take 4).map (·.2))).1 = [0, 1] ∧
     materialised (frun false (finit [(kS, .int 1)]) (unmarked (markedHist.take 4))).1 = [] :=
-  ⟨(lazy_is_unobservable (Ref_init _) markedHist (by decide) (by decide) (by decide)).1,
+  ⟨(lazy_is_unobservable (Ref_init _) markedHist (by decide) (by decide)).1,
     by decide, by decide, by decide, by decide⟩
+
+/-- guard invariance is not vacuous: the guard of `markedHist` WITHOUT its three reads holds, the
+    theorem gives the guard WITH them (and `decide` agrees); the reads do materialise frames (the
+    `map` differs after four commands) while the store — what `refGuard` looks at — is the same -/
+example :
+    refGuard (finit [(kS, .int 1)]) (initState [(kS, .int 1)]) (unmarked markedHist) = true ∧
+    refGuard (finit [(kS, .int 1)]) (initState [(kS, .int 1)]) (markedHist.map (·.2)) = true ∧
+    SameStore (frun false (finit [(kS, .int 1)]) ((markedHist.take 4).map (·.2))).1
+      (frun false (finit [(kS, .int 1)]) (unmarked (markedHist.take 4))).1 :=
+  ⟨by decide,
+    by rw [refGuard_insert_reads (Ref_init _) markedHist (by decide)]; decide,
+    ⟨rfl, rfl, rfl, rfl⟩⟩
+
+/-- … and a guard that FAILS stays failed under inserted reads (the equality goes both ways): a wrong
+    `initial_set` annotation of the shared object is rejected with or without the reads -/
+def markedBad : List (Bool × Cmd) :=
+  [(false, .usingProps 0 [(kT, .int 3)]), (true, .op (.cls 1) .items),
+   (false, .usingShared 0 1 [(kT, .int 4)]), (true, .op (.cls 2) .items)]
+
+example :
+    refGuard (finit [(kS, .int 1)]) (initState [(kS, .int 1)]) (unmarked markedBad) = false ∧
+    refGuard (finit [(kS, .int 1)]) (initState [(kS, .int 1)]) (markedBad.map (·.2)) = false :=
+  ⟨by decide, by rw [refGuard_insert_reads (Ref_init _) markedBad (by decide)]; decide⟩
 
 end Flatland.C17.Frames.Proofs
